@@ -91,6 +91,37 @@ def num_of(c: str, kind: str):
     return np.dtype(kind).type(f.numerator / f.denominator if f.denominator != 1 else int(f))
 
 
+def carried(c: str, kind: str):
+    """the rational `c` (exactly representable there) in the numeric carrier `kind`: "pyint", "pyfloat", a numpy scalar
+    type name ("int8" ... "uint64", "float16", "float32", "float64", "longdouble"), "arr0:<numpy type>" (0-d array),
+    "f32div" (the result of float32 arithmetic), "Fraction", "Decimal" """
+    f = Fraction(c)
+    if kind == "Fraction":
+        return f
+    if kind == "Decimal":
+        import decimal
+        d = decimal.Decimal(f.numerator) / decimal.Decimal(f.denominator)
+        if Fraction(d) != f:
+            raise KeyError(f"{c} is not a finite decimal")      # (KeyError: a harness error, never taken for a refusal)
+        return d
+    if kind == "f32div":
+        r = np.float32(f.numerator) / np.float32(f.denominator)
+        if not isinstance(r, np.float32) or Fraction(float(r)) != f:
+            raise KeyError(f"{c} is not a float32 quotient")
+        return r
+    if kind.startswith("arr0:"):
+        return np.array(num_of(c, kind[5:]))
+    if kind == "pyint" and f.denominator != 1:
+        raise KeyError(f"{c} is not an integer")
+    try:
+        r = num_of(c, kind)
+    except Exception as e:
+        raise KeyError(f"{c} as {kind}: {e}")
+    if frac(r) != f:
+        raise KeyError(f"{c} is not representable as {kind}")
+    return r
+
+
 def snap_stats(h) -> dict:
     st = h.statistics
     if isnan(st.weight) and isnan(st.sum):
@@ -198,6 +229,15 @@ class Store:
 
 
 def arr(vals, dtype=None, shape=None):
+    if dtype is not None and np.dtype(dtype).kind in "iu" and len(vals) > 0 and all(
+            v is not None and Fraction(v).denominator == 1 for v in vals):
+        ints = [int(Fraction(v)) for v in vals]
+        info = np.iinfo(dtype)
+        if any(abs(i) > 2**53 for i in ints) and all(info.min <= i <= info.max for i in ints):
+            # whole numbers beyond 2**53 for an integer type go there as python integers: exact, no double on the way
+            # (for smaller ones the older route below gives the same array)
+            a = np.array(ints, dtype=dtype)
+            return a.reshape(shape) if shape else a
     a = np.array([fl(v) for v in vals], dtype=float)
     if dtype is not None:
         a = a.astype(dtype)
@@ -248,7 +288,11 @@ def _step(s: Store, op: dict, exc_log: list):
             dt = np.dtype(op["dtype"])
             f = arr(op["freq"], dt)
             e = None if op.get("err2") is None else arr(op["err2"], dt)
-            h = Histogram1D(mk_binning(op["binning"]), f, e, keep_missed=op.get("keep", True),
+            klass = Histogram1D
+            if op.get("klass"):         # a 1-D histogram class with transformed coordinates (same constructor)
+                import physt.special_histograms as _sh
+                klass = getattr(_sh, op["klass"])
+            h = klass(mk_binning(op["binning"]), f, e, keep_missed=op.get("keep", True),
                             underflow=fl(op.get("under")), overflow=fl(op.get("over")),
                             inner_missed=fl(op.get("inner")))
             s.set(op["out"], h)
@@ -381,10 +425,10 @@ def _step(s: Store, op: dict, exc_log: list):
         if name == "merge":
             h = s.get(op["h"])
             kw = {}
-            if op.get("amount") is not None:
-                kw["amount"] = op["amount"]
+            if op.get("amount") is not None:     # "ak" / "mk": the numeric type carrying the amount / the threshold
+                kw["amount"] = carried(op["amount"], op["ak"]) if op.get("ak") else op["amount"]
             if op.get("min_freq") is not None:
-                kw["min_frequency"] = fl(op["min_freq"])
+                kw["min_frequency"] = carried(op["min_freq"], op["mk"]) if op.get("mk") else fl(op["min_freq"])
             if op.get("axis0"):
                 kw["axis"] = 0
             r = h.merge_bins(inplace=op.get("inplace", False), **kw)
